@@ -1,6 +1,7 @@
 import N0Verif.Proofs.Esc
 import N0Verif.Proofs.EscRef
 import N0Verif.Proofs.Ini
+import N0Verif.Proofs.EscGenEq
 /-!
 # C17 — delimited list / key=value text decodes to what was encoded
 
@@ -863,5 +864,60 @@ example : parseIni ['='] ["k+= b".toList] = .ok [(['K'], .str [marker, 'b'])] :=
 -- comments and blank lines
 example : isIgnored "  # k=v".toList = true ∧ isIgnored "\t//k=v".toList = true ∧ isIgnored " \t".toList = true
     ∧ isIgnored "/ k=v".toList = false ∧ isIgnored "k#=v".toList = false := by decide +kernel
+
+/-! ## second tie: the definitions regenerated from the source of `split_with_escape` (`Gen/EscPy.lean`) -/
+
+/-- **generated `for` loop = model scan**: the `for … in enumerate(separated_items[start:-1])` over the translated loop
+body is `Esc.forScan` (same `break` with the same glued list and new `start_from_item`, same exhaustion, same
+exception), for every snapshot of a slice that lies inside the list (`hlen`; the translated item store `l[i] = v` raises
+`IndexError` outside the list, the model's `List.set` does not — inside the `while` loop the slice always lies inside:
+`C17_generated_while_eq` has no such hypothesis). -/
+theorem C17_generated_for_eq (s d : Str) (m : Nat) (e : Char) (tr : Bool) (hd : d ≠ []) (start : Nat)
+    (snap : List Str) (i : Nat) (items : List Str) (hlen : snap.length = 0 ∨ start + i + snap.length ≤ items.length) :
+    Gen.EscPy.forEnum (Gen.EscPy.forBody s d m e tr) snap i ⟨items, start⟩
+      = (forScan ⟨e, d, tr, m⟩ start snap i items).map (EscGenEq.viewFor start) :=
+  EscGenEq.forEnum_eq s d m e tr hd start snap i items hlen
+
+/-- **generated `else` block of the `for` = `Esc.finalTrim`** (trim of the last item, then the `break` out of the `while`) -/
+theorem C17_generated_else_eq (s d : Str) (m : Nat) (e : Char) (tr : Bool) (items : List Str) (start : Nat) :
+    Gen.EscPy.forElse s d m e tr ⟨items, start⟩
+      = (finalTrim ⟨e, d, tr, m⟩ items).map (fun l => Gen.EscPy.Ctl.brk ⟨l, start⟩) :=
+  EscGenEq.forElse_eq s d m e tr items start
+
+/-- **generated `while True:` = `Esc.whileLoop`**, for every fuel -/
+theorem C17_generated_while_eq (s d : Str) (m : Nat) (e : Char) (tr : Bool) (hd : d ≠ []) (fuel : Nat)
+    (items : List Str) (start : Nat) :
+    (Gen.EscPy.whileTrue (Gen.EscPy.round s d m e tr) fuel ⟨items, start⟩).map (·.f0)
+      = whileLoop ⟨e, d, tr, m⟩ fuel items start :=
+  EscGenEq.whileTrue_eq s d m e tr hd fuel items start
+
+/-- **generated function = model**: the Lean text regenerated from the source of `split_with_escape` equals the
+hand-written `Esc.splitWithEscapeD`, for every fuel, text, delimiter (the empty one included: `ValueError`),
+maxsplit, escape character (`none` included) and trim flag. -/
+theorem C17_generated_split_eq (s d : Str) (m : Nat) (esc : Option Char) (tr : Bool) (fuel : Nat) :
+    Gen.EscPy.splitWithEscape s d m esc tr fuel = splitWithEscapeD fuel s d m esc tr :=
+  EscGenEq.splitWithEscape_eq s d m esc tr fuel
+
+/-- **C17 for the translated code**: with fuel `|s| + 2` the regenerated function is the character-level reference. -/
+theorem C17_generated_split_is_reference (s d : Str) (m : Nat) (e : Char) (tr : Bool) (hd : d ≠ []) :
+    Gen.EscPy.splitWithEscape s d m (some e) tr (fuelFor s) = .ok (refAux e d tr (limOf m) 0 [] s) := by
+  rw [C17_generated_split_eq]; exact C17_split_is_reference s d m e tr hd
+
+-- non-vacuity: an odd run glued (with the maxsplit re-split), an even run halved, the last item trimmed
+example : Gen.EscPy.forEnum (Gen.EscPy.forBody [] [';'] 1 '\\' true) [['a', '\\']] 0 ⟨[['a', '\\'], ['b', ';', 'c']], 0⟩
+    = .ok (.brk ⟨[['a', ';', 'b'], ['c']], 0⟩) := by decide +kernel
+example : Gen.EscPy.forEnum (Gen.EscPy.forBody [] [';'] 0 '\\' true) [['a', '\\', '\\'], ['b']] 0 ⟨[['a', '\\', '\\'], ['b'], []], 0⟩
+    = .ok (.cont ⟨[['a', '\\'], ['b'], []], 0⟩) := by decide +kernel
+-- `hlen` holds on the first example (the slice `items[0:-1]`), and is needed: a store outside the list raises in the translated code
+example : ([['a', '\\']] : List Str).length = 0 ∨ 0 + 0 + ([['a', '\\']] : List Str).length ≤ ([['a', '\\'], ['b', ';', 'c']] : List Str).length := by decide
+example : Gen.EscPy.forEnum (Gen.EscPy.forBody [] [';'] 0 '\\' true) [['a', '\\', '\\']] 0 ⟨[], 0⟩ = .error .IndexError
+    ∧ forScan ⟨'\\', [';'], true, 0⟩ 0 [['a', '\\', '\\']] 0 [] = .ok (.exhausted []) := ⟨by decide +kernel, rfl⟩
+example : Gen.EscPy.forElse [] [';'] 0 '\\' true ⟨[['a'], ['b', '\\', '\\', '\\']], 1⟩ = .ok (.brk ⟨[['a'], ['b', '\\', '\\']], 1⟩) := by
+  decide +kernel
+example : (Gen.EscPy.whileTrue (Gen.EscPy.round [] [';'] 0 '\\' true) 3 ⟨[['a', '\\'], ['b', '\\'], ['c', '\\', '\\']], 0⟩).map (·.f0)
+    = .ok [['a', ';', 'b', ';', 'c', '\\']] := by decide +kernel
+example : Gen.EscPy.splitWithEscape "a\\;b;c;d".toList [';'] 1 (some '\\') true 10 = .ok ["a;b".toList, "c;d".toList]
+    ∧ Gen.EscPy.splitWithEscape ['a'] [] 0 (some '\\') true 3 = .error .ValueError
+    ∧ Gen.EscPy.splitWithEscape "a\\;b".toList [';'] 0 none true 3 = .ok ["a\\".toList, ['b']] := by decide +kernel
 
 end N0.C17
